@@ -108,12 +108,15 @@ def _alpha(tree: ast.AST) -> ast.AST:
     for n in ast.walk(tree):
         if isinstance(n, ast.Name) and isinstance(n.ctx, ast.Store) and n.id not in bound:
             bound.append(n.id)
-    # order of first textual occurrence
+    # order of first occurrence in the tree (structural, so that it survives inlining and re-formatting)
+    from .canon import _seq
+
+    seq = _seq(tree)
     order: dict[str, int] = {}
-    for n in ast.walk(tree):
+    for n in sorted(ast.walk(tree), key=lambda x: seq.get(id(x), 0)):
         nm = n.arg if isinstance(n, ast.arg) else n.id if isinstance(n, ast.Name) else None
         if nm in bound and nm not in order:
-            order[nm] = getattr(n, "lineno", 0) * 1000 + getattr(n, "col_offset", 0)
+            order[nm] = seq.get(id(n), 0)
     ranked = {nm: f"v{i}" for i, nm in enumerate(sorted(order, key=lambda k: order[k]))}
     for n in ast.walk(tree):
         if isinstance(n, ast.arg) and n.arg in ranked:
